@@ -1,4 +1,8 @@
 import WebrtcVerif.Base.Wire
+import WebrtcVerif.Drv.C09
+import WebrtcVerif.Drv.C07
+import WebrtcVerif.Drv.C06
+import WebrtcVerif.Drv.C30
 import WebrtcVerif.Drv.C08
 import WebrtcVerif.Drv.C03
 import WebrtcVerif.Drv.C02
@@ -74,6 +78,10 @@ def runLine (toks : List String) : String :=
   | "C02" :: rest => Drv.C02.run rest
   | "C03" :: rest => Drv.C03.run rest
   | "C08" :: rest => Drv.C08.run rest
+  | "C30" :: rest => Drv.C30.run rest
+  | "C06" :: rest => Drv.C06.run rest
+  | "C07" :: rest => Drv.C07.run rest
+  | "C09" :: rest => Drv.C09.run rest
   | _ => "bad-op"
 
 def judgeLine (toks : List String) : String :=
@@ -113,6 +121,10 @@ def judgeLine (toks : List String) : String :=
   | "C02" :: rest => Drv.C02.judge rest out
   | "C03" :: rest => Drv.C03.judge rest out
   | "C08" :: rest => Drv.C08.judge rest out
+  | "C30" :: rest => Drv.C30.judge rest out
+  | "C06" :: rest => Drv.C06.judge rest out
+  | "C07" :: rest => Drv.C07.judge rest out
+  | "C09" :: rest => Drv.C09.judge rest out
   | _ => "bad-judge"
 
 partial def loop (h : IO.FS.Stream) (out : IO.FS.Stream) (f : List String → String) : IO Unit := do
